@@ -2057,6 +2057,11 @@ def distributed_shampoo(
   if average_grad and not frequent_directions:
     raise ValueError("average_grad requested but frequent_directions is False")
 
+  if shard_optimizer_states and (num_devices_for_pjit is None or
+                                 num_devices_for_pjit < 1):
+    raise ValueError("shard_optimizer_states=True requires num_devices_for_pjit"
+                     f" >= 1, found {num_devices_for_pjit}")
+
   if frequent_directions and (statistics_compute_steps !=
                               preconditioning_compute_steps):
     raise ValueError("frequent_directions=True requires "
